@@ -197,6 +197,7 @@ def run(repo='/repo', tier='quick'):
     c05f(db, res)
     c05g(db, res)
     c05h(db, res)
+    c05i(db, res)
     return res
 
 
@@ -350,3 +351,41 @@ def c05h(db, res):
             res.check(ok, 'C05.h', '%s:calls:htp_tx_finalize' % name, 'the caller has just completed a side of this transaction',
                       '%s calls htp_tx_finalize() without having moved a side of the transaction to COMPLETE: when both sides are complete already (the usual case at that point) TRANSACTION_COMPLETE is delivered a second time' % name, c['loc'])
     res.floor('C05.h', 'callers of htp_tx_finalize', n, 2)
+
+
+PROGRESS_WRITERS = {
+    # (field, phase) -> the functions that move a message INTO that phase (mined on the pinned tree, read, frozen): the phase is
+    # entered where the corresponding part of the message begins, nowhere else
+    ('request_progress', 'HTP_REQUEST_NOT_STARTED'): {'htp_tx_create'},
+    ('request_progress', 'HTP_REQUEST_LINE'): {'htp_tx_state_request_start'},
+    ('request_progress', 'HTP_REQUEST_HEADERS'): {'htp_connp_REQ_PROTOCOL'},
+    ('request_progress', 'HTP_REQUEST_BODY'): {'htp_connp_REQ_BODY_DETERMINE'},
+    ('request_progress', 'HTP_REQUEST_TRAILER'): {'htp_connp_REQ_BODY_CHUNKED_LENGTH', 'htp_connp_REQ_HEADERS'},
+    ('request_progress', 'HTP_REQUEST_COMPLETE'): {'htp_tx_state_request_complete_partial'},
+    ('response_progress', 'HTP_RESPONSE_NOT_STARTED'): {'htp_tx_create'},
+    ('response_progress', 'HTP_RESPONSE_LINE'): {'htp_tx_state_response_start', 'htp_connp_RES_BODY_DETERMINE'},
+    ('response_progress', 'HTP_RESPONSE_HEADERS'): {'htp_connp_RES_LINE'},
+    ('response_progress', 'HTP_RESPONSE_BODY'): {'htp_connp_RES_BODY_DETERMINE', 'htp_connp_RES_LINE', 'htp_tx_state_response_start'},
+    ('response_progress', 'HTP_RESPONSE_TRAILER'): {'htp_connp_RES_BODY_CHUNKED_LENGTH'},
+    ('response_progress', 'HTP_RESPONSE_COMPLETE'): {'htp_tx_state_response_complete_ex'},
+}
+
+
+def c05i(db, res):
+    """Progress never moves backwards because each phase is entered by the state that reads the first byte of that part of the
+    message, and by nobody else: a later state (FINALIZE, say) that stores an earlier phase moves the indicator back."""
+    res.rule('C05.i', 'each progress phase is entered by the states that begin that part of the message: the set of functions that store a given phase into request_progress / response_progress is the tabled one (a new writer of an earlier phase in a later state is a backward move)')
+    n = 0
+    for name, f in sorted(db.fn.items()):
+        if not f.blocks:
+            continue
+        for fld in ('request_progress', 'response_progress'):
+            for b, i, w in P.field_writes(f, fld):
+                if w.get('k') != 'assign':
+                    continue
+                ph = lit_name(w['r']) or P.K(w['r'])
+                n += 1
+                ok = name in PROGRESS_WRITERS.get((fld, ph), set())
+                res.check(ok, 'C05.i', '%s:%s=%s' % (name, fld, ph), 'a tabled writer of this phase',
+                          '%s stores %s into %s; the phase is entered only by %s: from this function the store moves the indicator of a message that is already further on backwards (or skips ahead without the callbacks of the phases in between)' % (name, ph, fld, sorted(PROGRESS_WRITERS.get((fld, ph), [])) or 'nobody'), w['loc'])
+    res.floor('C05.i', 'progress stores', n, 15)
